@@ -13,6 +13,7 @@ import contextlib
 import io
 import math
 import os
+import random
 import re
 import shutil
 import tempfile
@@ -232,6 +233,32 @@ def gen_netlist(rng):
     return {"dw": dw, "dh": dh, "ratio": ratio, "modules": mods, "nets": nets, "q": q}
 
 
+AREA_REGIONS = ["dsp", "lut", "bram"]
+
+
+def region_areas(rng, case, p=1.0):
+    """The input form of the required area: a soft module may state it PER REGION ({_: a, dsp: b} or {dsp: a},
+    i.e. with and without a part on the ground region); the requirement is the total.  m["areafmt"] = list of
+    (region, share) with dyadic shares adding up to 1."""
+    for m in case["modules"]:
+        if m["kind"] != "soft" or rng.random() >= p:
+            continue
+        form = rng.choice(["ground+1", "ground+1", "one", "one", "two", "ground+2", "ground-last"])
+        regs = rng.sample(AREA_REGIONS, 2)
+        if form == "one":
+            m["areafmt"] = [[regs[0], F(1)]]
+        elif form == "two":
+            m["areafmt"] = [[regs[0], F(1, 4)], [regs[1], F(3, 4)]]
+        elif form == "ground+2":
+            m["areafmt"] = [["_", F(1, 4)], [regs[0], F(1, 4)], [regs[1], F(1, 2)]]
+        elif form == "ground-last":
+            m["areafmt"] = [[regs[0], F(3, 4)], ["_", F(1, 4)]]
+        else:
+            s = rng.choice([F(1, 2), F(1, 4), F(3, 8), F(1, 8)])
+            m["areafmt"] = [["_", s], [regs[0], 1 - s]]
+    return case
+
+
 def num_yaml(v, intfmt):
     v = F(v)
     if v.denominator == 1 and intfmt:
@@ -245,7 +272,12 @@ def to_yaml(case):
     for m in case["modules"]:
         rs = ", ".join("[" + ", ".join(num_yaml(v, m.get("intfmt", True)) for v in r) + "]" for r in m["rects"])
         if m["kind"] == "soft":
-            items.append("  %s: {area: %s, rectangles: [%s]}" % (m["name"], num_yaml(m["area"], False), rs))
+            if m.get("areafmt"):
+                area = "{" + ", ".join("%s: %s" % (r, num_yaml(F(m["area"]) * F(s), m.get("intfmt", True)))
+                                       for r, s in m["areafmt"]) + "}"
+            else:
+                area = num_yaml(m["area"], False)
+            items.append("  %s: {area: %s, rectangles: [%s]}" % (m["name"], area, rs))
         elif m["kind"] == "hard":
             items.append("  %s: {hard: true, rectangles: [%s]}" % (m["name"], rs))
         else:
@@ -1060,8 +1092,10 @@ def g_optree(t):
     return f"(e{k} {g_optree(t[1])} {g_optree(t[2])})"
 
 
-def gen_case(rng, nconf):
+def gen_case(rng, nconf, areas=False):
     case = gen_netlist(rng)
+    if areas:
+        region_areas(rng, case, 0.8)
     case["exact"] = case["q"] != 10
     case["ops"] = []
     while len(case["ops"]) < 6:
@@ -1100,7 +1134,8 @@ def run(ctx, out, replay=None):
     nconf = 10
     out.rule = ("netlists of 1-5 single-trunk orthogons in disjoint 16x16 slots of the die (soft with 0-4 branches on "
                 "any side incl. several on one side in shuffled netlist order, hard, fixed; integer and dyadic k/2,k/4,k/8 "
-                "coordinates, 1 in 7 decimal k/10 (compared within 1e-12), YAML ints and floats), ratio limits 2..8; 6 random "
+                "coordinates, 1 in 7 decimal k/10 (compared within 1e-12), YAML ints and floats; a stream whose soft modules "
+                "state the required area per region, with and without a part on the ground region), ratio limits 2..8; 6 random "
                 "operator-overload trees (constant folding) per netlist; per netlist the input configuration and ~10 "
                 "random configurations: legal (reshaped soft / translated hard modules) or breaking exactly one of "
                 "inside/aspect/area/attach/order/overlap/rigid by > 10*(epsilon+1e-6), at epsilon in {0.27,0.0127,5.4e-4,0}; "
@@ -1112,6 +1147,14 @@ def run(ctx, out, replay=None):
         cases += fr.load_corpus("C09")
         while len(cases) < n:
             cases.append(gen_case(ctx.rng, nconf))
+        # the input form of the required area (own stream: the cases above do not move)
+        rng2 = random.Random(f"C09-region-areas-{ctx.seed}")
+        k = 0
+        while k < (16 if ctx.quick() else 200):
+            c = gen_case(rng2, nconf, areas=True)
+            if any(m.get("areafmt") for m in c["modules"]):
+                cases.append(c)
+                k += 1
         labels = {}
         for c in cases:
             for cfg in c.get("configs", []):
